@@ -284,6 +284,23 @@ class Opaque:
         return f"<opaque {self.what}>"
 
 
+_LOCALS_CACHE = {}
+
+
+def _assigned_locally(func, name):
+    """is `name` bound somewhere in the body of func (assignment, loop target, with/except alias, parameter excluded)?"""
+    key = id(func.node)
+    if key not in _LOCALS_CACHE:
+        names = set()
+        for node in walk_shallow(func.node):
+            if isinstance(node, ast.Name) and isinstance(node.ctx, ast.Store):
+                names.add(node.id)
+            elif isinstance(node, ast.ExceptHandler) and node.name:
+                names.add(node.name)
+        _LOCALS_CACHE[key] = names
+    return name in _LOCALS_CACHE[key]
+
+
 def _warn_noop(*a, **k):
     """warnings.warn: issuing a warning has no effect on any value (whatever the warning object is)"""
     return None
@@ -840,6 +857,9 @@ class Interp:
             m = self.method(it, "__iter__")
             if m is not None:
                 return self.iterate(self.call_func(m, [], {}, it, 1))
+        if isinstance(it, (int, float, bool, type(None), EnumVal)) or type(it).__name__ == "UUID" or (isinstance(it, Obj) and not it.fields.get("__namedtuple__")):
+            # not iterable in Python either
+            raise Raised("TypeError", f"'{type(it).__name__}' object is not iterable")
         raise Uninterpretable(f"iteration over {type(it).__name__}")
 
     # ---- expressions ------------------------------------------------------------------
@@ -1108,6 +1128,9 @@ class Interp:
                                                "getattr", "hasattr", "object", "print", "id", "map", "filter", "divmod", "round",
                                                "callable", "ord", "chr", "pow"):
                 return ("builtin", n.id)
+            if func is not None and _assigned_locally(func, n.id):
+                # a local name that some path assigns and this path reads unassigned: Python raises UnboundLocalError
+                raise Raised("UnboundLocalError", n.id)
             raise Uninterpretable(f"name {n.id} in {func.qual if func else '?'}")
         if t is ast.Attribute:
             o = self.eval(n.value, env, func, depth)
